@@ -91,48 +91,58 @@ pub fn build_object<'a, K: AsRef<str>>(
     items: impl IntoIterator<Item = (K, &'a [u8])>,
     buf: &mut Vec<u8>,
 ) -> Result<(), Error> {
-    let start = buf.len();
-    // reserve space for header
-    buf.resize(start + 4, 0);
-    let mut len: u32 = 0;
-    let mut key_data = Vec::new();
-    let mut val_data = Vec::new();
-    let mut val_jentries = VecDeque::new();
+    // collect the items first: keys of an object are stored sorted and unique,
+    // if a key occurs more than once the last value wins.
+    let mut entries: Vec<(K, [u8; 4], &'a [u8])> = Vec::new();
     for (key, value) in items.into_iter() {
-        let key = key.as_ref();
-        // write key jentry and key data
-        let encoded_key_jentry = (STRING_TAG | key.len() as u32).to_be_bytes();
-        buf.extend_from_slice(&encoded_key_jentry);
-        key_data.extend_from_slice(key.as_bytes());
-
-        // build value jentry and write value data
         let header = read_u32(value, 0)?;
-        let encoded_val_jentry = match header & CONTAINER_HEADER_TYPE_MASK {
+        let entry = match header & CONTAINER_HEADER_TYPE_MASK {
             SCALAR_CONTAINER_TAG => {
-                let jentry = &value[4..8];
-                val_data.extend_from_slice(&value[8..]);
-                jentry.try_into().unwrap()
+                let jentry = value.get(4..8).ok_or(Error::InvalidEOF)?;
+                (key, jentry.try_into().unwrap(), &value[8..])
             }
             ARRAY_CONTAINER_TAG | OBJECT_CONTAINER_TAG => {
-                val_data.extend_from_slice(value);
-                (CONTAINER_TAG | value.len() as u32).to_be_bytes()
+                (key, (CONTAINER_TAG | value.len() as u32).to_be_bytes(), value)
             }
             _ => return Err(Error::InvalidJsonbHeader),
         };
-        val_jentries.push_back(encoded_val_jentry);
-        len += 1;
+        entries.push(entry);
     }
-    // write header and value jentry
-    let header = OBJECT_CONTAINER_TAG | len;
-    for (i, b) in header.to_be_bytes().iter().enumerate() {
-        buf[start + i] = *b;
+    let mut order: Vec<usize> = (0..entries.len()).collect();
+    order.sort_by(|a, b| {
+        entries[*a]
+            .0
+            .as_ref()
+            .cmp(entries[*b].0.as_ref())
+            .then(a.cmp(b))
+    });
+    let mut uniq: Vec<usize> = Vec::with_capacity(order.len());
+    for idx in order {
+        if let Some(last) = uniq.last_mut() {
+            if entries[*last].0.as_ref() == entries[idx].0.as_ref() {
+                *last = idx;
+                continue;
+            }
+        }
+        uniq.push(idx);
     }
-    while let Some(val_jentry) = val_jentries.pop_front() {
-        buf.extend_from_slice(&val_jentry);
+
+    // write header, key jentries, value jentries, key data and value data
+    let header = OBJECT_CONTAINER_TAG | uniq.len() as u32;
+    buf.extend_from_slice(&header.to_be_bytes());
+    for idx in uniq.iter() {
+        let key = entries[*idx].0.as_ref();
+        buf.extend_from_slice(&(STRING_TAG | key.len() as u32).to_be_bytes());
     }
-    // write key data and value data
-    buf.extend_from_slice(&key_data);
-    buf.extend_from_slice(&val_data);
+    for idx in uniq.iter() {
+        buf.extend_from_slice(&entries[*idx].1);
+    }
+    for idx in uniq.iter() {
+        buf.extend_from_slice(entries[*idx].0.as_ref().as_bytes());
+    }
+    for idx in uniq.iter() {
+        buf.extend_from_slice(entries[*idx].2);
+    }
 
     Ok(())
 }
